@@ -169,6 +169,11 @@ def main(tier, seed):
                 "implementation": ("is_hashable=%s" % hashable[r % 1000000]) if r >= 1000000 else {"equal_to": [qs[j] for j in eq_rows[r][:4]]}}
         ck.violation({"kind": "correspondence-broken", "what_no_longer_checks": "correspondence Query.qeq/qhash (theorems C17_*) vs __eq__/is_hashable",
                       **what, "disagreeing_rows": len(nums) - 1}, no_input=True)
+    for f_ in load_known_findings():
+        if f_.get("status") == "known" and "C17" in f_.get("properties", []) and f_.get("repro"):
+            rc_, out_ = sh([PY, str(VERIF / "findings" / "repro.py"), f_["repro"]], env=impl_env(), timeout=120)
+            if "DEFECT" in out_:
+                ck.known_finding(f"{f_['id']}: {f_['what']}")
     ck.cov = {
         "translator": {"source": "tinyflux/queries.py: every place a query object gets its _hash key, its test operator, its == -> coq/gen/QueryGen.v (regenerated on this run)",
                        "refused": refused, "equivalence_theorems": "enc_eqb, gen_qhash_eq, gen_qeq_eq, gen_tables (proofs/QueryGenP.v)"},
